@@ -143,12 +143,20 @@ func ruleRespLines(c *Ctx) {
 // classes: Go-quoted text (strconv.Quote escapes every control character), the peer address of a
 // connection, and locals all of whose definitions (assignments, appends) are line-safe.
 func lineSafe(c *Ctx, j *jtCtx, fn *FuncInfo, e ast.Expr, depth int) (string, bool) {
+	return lineSafeEnv(c, j, fn, e, depth, nil)
+}
+
+// lineSafeEnv: env lists the parameters of fn that are known to be line-safe at the call under consideration.
+func lineSafeEnv(c *Ctx, j *jtCtx, fn *FuncInfo, e ast.Expr, depth int, env map[types.Object]bool) (string, bool) {
 	info := fn.Info()
 	e = ast.Unparen(e)
-	if depth > 4 {
+	if depth > 6 {
 		return "", false
 	}
 	if tv, ok := info.Types[e]; ok {
+		if tv.IsNil() {
+			return "nil (empty)", true
+		}
 		if tv.Value != nil {
 			if s, isStr := constString(info, e); isStr && strings.ContainsAny(s, "\r\n") {
 				return "", false
@@ -163,6 +171,14 @@ func lineSafe(c *Ctx, j *jtCtx, fn *FuncInfo, e ast.Expr, depth int) (string, bo
 		return why, true
 	}
 	switch x := e.(type) {
+	case *ast.BinaryExpr:
+		if x.Op == token.ADD {
+			if _, ok := lineSafeEnv(c, j, fn, x.X, depth+1, env); ok {
+				if _, ok := lineSafeEnv(c, j, fn, x.Y, depth+1, env); ok {
+					return "concatenation of line-safe pieces", true
+				}
+			}
+		}
 	case *ast.CallExpr:
 		if f := callee(info, x); f != nil {
 			switch funcKey(f) {
@@ -170,20 +186,50 @@ func lineSafe(c *Ctx, j *jtCtx, fn *FuncInfo, e ast.Expr, depth int) (string, bo
 				return "Go-quoted text", true
 			case "strconv.AppendQuote", "strconv.AppendQuoteToASCII":
 				if len(x.Args) == 2 {
-					if _, ok := lineSafe(c, j, fn, x.Args[0], depth+1); ok {
+					if _, ok := lineSafeEnv(c, j, fn, x.Args[0], depth+1, env); ok {
 						return "Go-quoted text appended to line-safe text", true
+					}
+				}
+			}
+		}
+		// a repository helper all of whose results are line-safe, given what this call passes for its parameters
+		if f := callee(info, x); f != nil {
+			if hi := c.FuncOf(f); hi != nil && hi.Decl.Body != nil && hi.Obj != fn.Obj {
+				sig := f.Type().(*types.Signature)
+				if sig.Results().Len() == 1 && !sig.Variadic() && len(x.Args) == sig.Params().Len() {
+					henv := map[types.Object]bool{}
+					for i, a := range x.Args {
+						if _, ok := lineSafeEnv(c, j, fn, a, depth+1, env); ok {
+							henv[sig.Params().At(i)] = true
+						}
+					}
+					hj := &jtCtx{c: c, fn: hi, info: hi.Info()}
+					rets, all := 0, true
+					inspectNoLit(hi.Decl.Body, func(n ast.Node) bool {
+						if r, ok := n.(*ast.ReturnStmt); ok {
+							rets++
+							if len(r.Results) != 1 {
+								all = false
+							} else if _, ok := lineSafeEnv(c, hj, hi, r.Results[0], depth+1, henv); !ok {
+								all = false
+							}
+						}
+						return true
+					})
+					if rets > 0 && all {
+						return "result of " + f.Name() + ", which returns line-safe text for these arguments", true
 					}
 				}
 			}
 		}
 		// conversions string(x), []byte(x)
 		if tv, ok := info.Types[x.Fun]; ok && tv.IsType() && len(x.Args) == 1 {
-			return lineSafe(c, j, fn, x.Args[0], depth+1)
+			return lineSafeEnv(c, j, fn, x.Args[0], depth+1, env)
 		}
 		// append(base, pieces...)
 		if id, ok := ast.Unparen(x.Fun).(*ast.Ident); ok && id.Name == "append" && info.Uses[id] == types.Universe.Lookup("append") && len(x.Args) >= 1 {
 			for _, a := range x.Args {
-				if _, ok := lineSafe(c, j, fn, a, depth+1); !ok {
+				if _, ok := lineSafeEnv(c, j, fn, a, depth+1, env); !ok {
 					return "", false
 				}
 			}
@@ -198,15 +244,29 @@ func lineSafe(c *Ctx, j *jtCtx, fn *FuncInfo, e ast.Expr, depth int) (string, bo
 		if !ok || v.IsField() || v.Parent() == v.Pkg().Scope() {
 			return "", false
 		}
+		if why, ok := respLineReviewed[funcName(fn.Obj)+"→"+x.Name]; ok {
+			return "reviewed: " + why, true
+		}
 		// a parameter is whatever the caller passes
 		for _, p := range fn.Decl.Type.Params.List {
 			for _, nm := range p.Names {
-				if info.ObjectOf(nm) == v {
+				if info.ObjectOf(nm) == v && !env[v] {
 					return "", false
 				}
 			}
 		}
 		defs, okAll := 0, true
+		// a parameter of a local closure is whatever its calls pass
+		if args, isCl, ok := closureParamArgs(c.Program, info, fn.Decl, v); isCl {
+			if !ok || len(args) == 0 {
+				return "", false
+			}
+			for _, a := range args {
+				if _, ok := lineSafeEnv(c, j, fn, a, depth+1, env); !ok {
+					return "", false
+				}
+			}
+		}
 		ast.Inspect(fn.Decl.Body, func(n ast.Node) bool {
 			switch s := n.(type) {
 			case *ast.AssignStmt:
@@ -223,7 +283,7 @@ func lineSafe(c *Ctx, j *jtCtx, fn *FuncInfo, e ast.Expr, depth int) (string, bo
 							if base, isId := ast.Unparen(call.Args[0]).(*ast.Ident); isId && info.ObjectOf(base) == v {
 								if fid, isF := ast.Unparen(call.Fun).(*ast.Ident); isF && fid.Name == "append" {
 									for _, a := range call.Args[1:] {
-										if _, ok := lineSafe(c, j, fn, a, depth+1); !ok {
+										if _, ok := lineSafeEnv(c, j, fn, a, depth+1, env); !ok {
 											okAll = false
 										}
 									}
@@ -234,7 +294,7 @@ func lineSafe(c *Ctx, j *jtCtx, fn *FuncInfo, e ast.Expr, depth int) (string, bo
 								}
 							}
 						}
-						if _, ok := lineSafe(c, j, fn, rhs, depth+1); !ok {
+						if _, ok := lineSafeEnv(c, j, fn, rhs, depth+1, env); !ok {
 							okAll = false
 						}
 					}
